@@ -167,6 +167,16 @@ class Parser:
         """Parse a bitproto from given string `s`.
         :param filepath: The filepath information if exist.
         """
+        try:
+            s.encode("utf-8")
+        except UnicodeEncodeError as error:
+            # A lone surrogate: not text, nothing rendered from it could be written.
+            lineno = s.count("\n", 0, error.start) + 1
+            raise LexerError(
+                message=f"Invalid character ({error.reason}).",
+                filepath=filepath,
+                lineno=lineno,
+            )
         with self.lexer.maintain_filepath(filepath):
             with self.maintain_filepath(filepath):
                 return self.parser.parse(s)
